@@ -31,7 +31,7 @@ Proof. reflexivity. Qed.
 
 (* validate; Initialize when placement rules are switched on; CheckInDefaultRule when count/labels change; a COPY of the rule GetRule returned gets the new count / labels (ruleCopy); SetRule; swap; persist; on failure restore the config and, through a fresh copy (rollback) and a second SetRule, count AND labels of the rule (model: repl_init / repl_check / repl_commit) *)
 Lemma skel_SetReplicationConfig_ok : skel_SetReplicationConfig =
-  [Call "Validate"; IfE "err != nil" [Ret] []; Call "GetReplicationConfig"; IfE "cfg.EnablePlacementRules != old.EnablePlacementRules" [IfE "raftCluster == nil" [Ret] []; IfE "cfg.EnablePlacementRules" [Call "Initialize"; IfE "err != nil" [Ret] []] [ForE [IfE "!s.IsTombstone() && core.IsTiFlashStore(s.GetMeta())" [Ret] []]]] []; IfE "cfg.EnablePlacementRules" [Call "GetRule"; DeferE [IfE "!(defaultRule != nil && len(defaultRule.StartKey) == 0 && len(defaultRule.EndKey) == 0)" [Ret] []; Assign "rule" "= defaultRule"; IfE "!(rule.Count == int(old.MaxReplicas) && reflect.DeepEqual(rule.LocationLabels, []string(old.LocationLabels)))" [Ret] []; Ret]; IfE "!(cfg.MaxReplicas == old.MaxReplicas && reflect.DeepEqual(cfg.LocationLabels, old.LocationLabels))" [Call "CheckInDefaultRule"; IfE "err != nil" [Ret] []; Assign "rule" "= defaultRule"] []] []; IfE "rule != nil" [Assign "rule" "= &ruleCopy"; Assign "rule.Count" "= int(cfg.MaxReplicas)"; Assign "rule.LocationLabels" "= cfg.LocationLabels"; Call "SetRule"; IfE "err != nil" [Ret] []] []; Call "SetReplicationConfig"; Call "Persist"; IfE "err != nil" [Call "SetReplicationConfig"; IfE "rule != nil" [Assign "rollback.Count" "= int(old.MaxReplicas)"; Assign "rollback.LocationLabels" "= old.LocationLabels"; Call "SetRule"] []; Ret] []; Ret].
+  [Call "Validate"; IfE "err != nil" [Ret] []; Call "GetReplicationConfig"; IfE "cfg.EnablePlacementRules != old.EnablePlacementRules" [IfE "raftCluster == nil" [Ret] []; IfE "cfg.EnablePlacementRules" [Call "Initialize"; IfE "err != nil" [Ret] []] [ForE [IfE "!s.IsTombstone() && core.IsTiFlashStore(s.GetMeta())" [Ret] []]]] []; IfE "cfg.EnablePlacementRules" [Call "GetRule"; DeferE [IfE "!(defaultRule != nil && len(defaultRule.StartKey) == 0 && len(defaultRule.EndKey) == 0)" [Ret] []; Assign "rule" "= defaultRule"; IfE "!(rule.Count == int(old.MaxReplicas) && sameLabels(rule.LocationLabels, old.LocationLabels))" [Ret] []; Ret]; IfE "!(cfg.MaxReplicas == old.MaxReplicas && sameLabels(cfg.LocationLabels, old.LocationLabels))" [Call "CheckInDefaultRule"; IfE "err != nil" [Ret] []; Assign "rule" "= defaultRule"] []] []; IfE "rule != nil" [Assign "rule" "= &ruleCopy"; Assign "rule.Count" "= int(cfg.MaxReplicas)"; Assign "rule.LocationLabels" "= cfg.LocationLabels"; Call "SetRule"; IfE "err != nil" [Ret] []] []; Call "SetReplicationConfig"; Call "Persist"; IfE "err != nil" [Call "SetReplicationConfig"; IfE "rule != nil" [Assign "rollback.Count" "= int(old.MaxReplicas)"; Assign "rollback.LocationLabels" "= old.LocationLabels"; Call "SetRule"] []; Ret] []; Ret].
 Proof. reflexivity. Qed.
 
 (* dashboard address: keyword or (prefixed) member URL, then Validate, swap, persist, restore *)
